@@ -232,6 +232,14 @@ def fam_endings(rng, tier):
             n += 1
             out.append({"tid": "end%d" % n, "conns": [{"events": [(10, ("text", "x")), (20, ("close", 1000, reason))]} for _ in range(runs)],
                         "run": {"skip_utf8_validation": True}, "runs": runs, "horizon": 90000})
+    # the same object run twice with different settings: a keepalive run that ends with a ping unanswered, then a run with
+    # only a ping timeout (no pings): nothing of the first run may be judged in the second
+    for end1 in (("close", 1000, b"one"), ("eof",)):
+        for kw2 in ({"ping_timeout": 2}, {}, {"ping_interval": 4, "ping_timeout": 1}):
+            n += 1
+            out.append({"tid": "end%d" % n, "runs": 2, "horizon": 90000,
+                        "conns": [{"events": [(6500, end1)], "pong": None}, {"events": [(1000, ("text", "second")), (6000, ("close", 1000, b"bye"))], "pong": 0}],
+                        "run": {}, "runs_kw": [{"ping_interval": 3}, kw2]})
     # two runs of one object that end in different ways (nothing of the first run may show in the second)
     for e1 in ENDINGS:
         for e2 in ENDINGS:
@@ -508,7 +516,9 @@ FAMILIES = {"C13": [("delivery", fam_delivery)], "C14": [("endings", fam_endings
 
 # clauses of another property that count for the check of property X in X's own families (the loss of a silent peer
 # has to be noticed before it can be followed by a new attempt)
-APP_CROSS = {"C15": {"C16.silent_peer_not_reported_within_two_timeouts"}}
+APP_CROSS = {"C15": {"C16.silent_peer_not_reported_within_two_timeouts"},
+             # a run ended by a timeout nobody caused ends with the wrong on_close arguments and return value
+             "C14": {"C16.responsive_peer_reported_as_timed_out"}}
 
 
 def fam_common(rng, tier):
